@@ -256,6 +256,14 @@ def txn_steps(draw, st, nparts, n_txn):
             steps.append(["ctx_ok" if end == "commit" else "ctx_exc", body] +
                          (["base"] if end != "commit" and draw(st.booleans()) else []))
         else:
+            if draw(st.integers(0, 4)) == 0:
+                # the explicit batch API: builder made before or after begin_transaction(), sent inside the transaction
+                mk = ["mkbatch", draw(st.integers(0, nparts - 1)), draw(st.integers(1, 3))]
+                if draw(st.booleans()):
+                    steps.append(mk)
+                else:
+                    body.insert(0, mk)
+                body.insert(draw(st.integers(1, len(body))), ["send_batch"])
             steps.append(["begin"])
             steps.extend(body)
             if draw(st.integers(0, 2)) == 0:
